@@ -191,7 +191,89 @@ def _divmod_part(t: Term):
     return None
 
 
+def _lin_atoms(t: Term, k: int, acc: dict) -> bool:
+    """t as an integer-linear combination of atoms (lengths, residues, opaque integers): acc[uid] = [coefficient, atom], acc[None] = [constant].
+    (x // n) * n is rewritten to x - x % n (n a positive constant), so ceiling-division spellings -(-x // n) * n cancel against x"""
+    t = unsnap(t)
+    dm = _divmod_part(t)
+    if dm is not None:
+        t = dm
+    if is_const(t):
+        v = cval(t)
+        if isinstance(v, bool) or not isinstance(v, int):
+            return False
+        acc.setdefault(None, [0, None])[0] += k * v
+        return True
+    if t.op == "len":
+        l = lin(t)
+        if l is not None:
+            for kk, v in l.items():
+                if kk == 1:
+                    acc.setdefault(None, [0, None])[0] += k * v
+                else:
+                    acc.setdefault(kk, [0, kk])[0] += k * v
+            return True
+    if t.op == "un" and t.args[0] == "USub":
+        return _lin_atoms(t.args[1], -k, acc)
+    if t.op == "bin" and t.args[0] in ("Add", "Sub"):
+        return _lin_atoms(t.args[1], k, acc) and _lin_atoms(t.args[2], k if t.args[0] == "Add" else -k, acc)
+    if t.op == "bin" and t.args[0] == "Mult":
+        for x, y in ((t.args[1], t.args[2]), (t.args[2], t.args[1])):
+            x, y = unsnap(x), unsnap(y)
+            if is_const(y) and isinstance(cval(y), int) and not isinstance(cval(y), bool):
+                n = cval(y)
+                neg = 1
+                while x.op == "un" and x.args[0] == "USub":
+                    x, neg = unsnap(x.args[1]), -neg
+                xd = _divmod_part(x) or x
+                if xd.op == "bin" and xd.args[0] == "FloorDiv" and n > 0 and is_const(unsnap(xd.args[2])) and cval(unsnap(xd.args[2])) == n and not isinstance(n, bool):
+                    from .terms import mk
+
+                    return _lin_atoms(xd.args[1], k * neg, acc) and _lin_atoms(mk("bin", "Mod", xd.args[1], unsnap(xd.args[2])), -k * neg, acc)
+                return _lin_atoms(x, k * n * neg, acc)
+        return False
+    acc.setdefault(("T", t.uid), [0, t])[0] += k
+    return True
+
+
+def _cong_linear(t: Term, m: int):
+    """congruence / range of t after cancelling equal atoms of its linear form"""
+    acc: dict = {}
+    if not _lin_atoms(t, 1, acc):
+        return None
+    co: dict = {}
+    c = acc.get(None, [0])[0]
+    lo = hi = c
+    c %= m
+    for key, (k, atom) in acc.items():
+        if key is None or k == 0:
+            continue
+        if isinstance(atom, Term):
+            a = _cong_nolin(atom, m)
+        else:
+            a = ({atom: 1}, 0, 0, None)  # a length
+        if a is None:
+            return None
+        for kk, v in a[0].items():
+            co[kk] = (co.get(kk, 0) + k * v) % m
+        c = (c + k * a[1]) % m
+        alo, ahi = (a[2], a[3]) if k > 0 else (a[3], a[2])
+        lo = None if lo is None or alo is None else lo + k * alo
+        hi = None if hi is None or ahi is None else hi + k * ahi
+    return ({kk: v for kk, v in co.items() if v}, c, lo, hi)
+
+
 def cong(t: Term, m: int):  # noqa: F811
+    r = _cong_nolin(t, m)
+    tt = unsnap(t)
+    if (r is None or r[2] is None or r[3] is None) and (tt.op == "bin" and tt.args[0] in ("Add", "Sub", "Mult") or tt.op == "un"):
+        r2 = _cong_linear(tt, m)
+        if r2 is not None and (r is None or (r2[2] is not None and r2[3] is not None)):
+            return r2
+    return r
+
+
+def _cong_nolin(t: Term, m: int):
     t = unsnap(t)
     dm = _divmod_part(t)
     if dm is not None:
